@@ -18,8 +18,11 @@ ASSUMPTIONS = ["a process forked from the parent that has imported pygradflow bu
                "digest = sha256 over the bytes of every trial (inputs, rho, dt, lambda, accepted, outputs) and of the result"]
 FRESH = True
 CASE_ALARM_S = 300
-OPS_QUICK = ["default", "exact_filter", "resolve", "scaled", "lamerr", "cb_abort", "unsym"]
-OPS_THOROUGH = OPS_QUICK + ["derivcheck", "debug", "integration", "second"]
+OPS_QUICK = ["default", "exact_filter", "resolve", "scaled", "scaled_b", "lamerr", "cb_abort", "pareto"]
+OPS_THOROUGH = OPS_QUICK + ["unsym", "derivcheck", "debug", "integration", "second"]
+
+
+_SHARED = {}
 
 
 def ops(tier):
@@ -44,9 +47,19 @@ def op_setup(op):
         spec = specs[2]
         params = R.make_params({"control": "Exact", "penalty": "ObjectiveFilter", "iteration_limit": 60})
         prob = UserProblem(spec)
-    elif op == "scaled":
+    elif op in ("scaled", "scaled_b"):
+        # both operations use the SAME problem object (kept per process) with different scaling points
         spec = specs[3]
-        params = R.make_params({"iteration_limit": 60}, G.scalings_of(spec, (4,))[0])
+        sc = dict(G.scalings_of(spec, (4,))[0])
+        if op == "scaled_b":
+            sc["at"] = [8.0, -0.03125]
+        params = R.make_params({"iteration_limit": 60}, sc)
+        if "shared" not in _SHARED:
+            _SHARED["shared"] = UserProblem(spec)
+        prob = _SHARED["shared"]
+    elif op == "pareto":
+        spec = specs[2]
+        params = R.make_params({"iteration_limit": 60, "penalty": "ParetoDecrease", "params": {"rho": 1e-2}})
         prob = UserProblem(spec)
     elif op == "derivcheck":
         spec = specs[0]
